@@ -14,6 +14,8 @@ from gen_script import Gen
 PROP = "C13"
 NEEDS = ["model/Heap.v", "proofs/HeapP.v", "gen/Facts.v", "proofs/FactsP.v"]
 H = "name t\nversion 1.0\n"
+import types
+FUNCS = (types.FunctionType, types.BuiltinFunctionType, types.MethodType, types.ModuleType)      # code is not program state
 
 
 def snapshot(p):
@@ -34,7 +36,7 @@ def snapshot(p):
     def walk(x, depth=0):
         if depth > 12:
             return
-        if isinstance(x, (list, dict, set, np.ndarray)) or (hasattr(x, "__dict__") and not isinstance(x, (sym.Basic, type))):
+        if isinstance(x, (list, dict, set, np.ndarray)) or (hasattr(x, "__dict__") and not isinstance(x, (sym.Basic, type, FUNCS))):
             if id(x) in ids:
                 return
             ids.add(id(x))
@@ -47,7 +49,7 @@ def snapshot(p):
         elif isinstance(x, np.ndarray) and x.dtype == object:
             for v in x.reshape(-1):
                 walk(v, depth + 1)
-        elif hasattr(x, "__dict__") and not isinstance(x, (sym.Basic, type)):
+        elif hasattr(x, "__dict__") and not isinstance(x, (sym.Basic, type, FUNCS)):
             for v in vars(x).values():
                 walk(v, depth + 1)
     walk(p)
@@ -80,6 +82,10 @@ def gen_template(rng):
         # values that an in-place normalisation would change: negative imaginary parts, negative zero, negative entries
         lines.append("complex array C =\n    1-2j, 0.5+0.5j\n    -1j, 3-0.25j")
         lines.append(rng.choice(["Interferometer(C) | [0, 1]", "Kgate(U=C) | 1", "Interferometer(C, l=[1, 2]) | [0, 1]"]))
+    if rng.random() < 0.4:
+        # measured-register arguments: the transform objects are mutable (regrefs list) and must be copied with the program
+        lines.append("MeasureX | 0")
+        lines.append(rng.choice(["Zgate(2 * q0) | 1", "Dgate(0.5, phi=q0 / 2) | 2", "Xgate(q0 + 1, 0.25) | 1"]))
     if rng.random() < 0.3:
         lines.append("float array N =\n    -1.5, -0.0\n    2, -3")
         lines.append("Ggate(N) | [0, 1]")
@@ -109,6 +115,9 @@ def mutate_everything(obj, rng):
                     v += 1
                 elif isinstance(v, list):
                     v.append(7)
+                elif hasattr(v, "regrefs") and isinstance(v.regrefs, list):
+                    v.regrefs[:] = [r + 5 for r in v.regrefs]        # relabel the measured modes of this instance
+                    v.func_str = "changed"
         obj._operations.append({"op": "Extra", "modes": [0]})
         obj._var["junk"] = 1
         for v in obj._var.values():
